@@ -38,7 +38,8 @@ SPEC = {
     "id": "C04",
     "level": "proof",
     "props": ["props/C04.vo"],
-    "gen_items": ["src/smart.rs:impl Kind for Arc"],
+    "tie": ["tie/CorePinned.vo"],
+    "gen_items": ["src/smart.rs:impl Kind for Arc", "src/bytes/raw*.rs + src/smart.rs:pinned bodies"],
     "tieA_required": True,
     "props_need_gen": ["props/C04.vo"],
     "case_libs": ["theories/CasesCounter.vo", "theories/CasesBytes.vo"],
